@@ -29,14 +29,13 @@ func runC01(c *Ctx) {
 		c.R.undecided("C01", "anchors", "", "", "sketch anchors resolve", err.Error())
 		return
 	}
-	c01Routing(c, a)
-	c01Split(c, a)
-	c01KeyAtRank(c, a)
+	c01Routing(c, a, "C01-D1")
+	c01Split(c, a, "C01-D2")
+	c01KeyAtRank(c, a, "C01-D3")
 	c01Value(c, a)
 }
 
-func c01Routing(c *Ctx, a *sketchAnchors) {
-	const rule = "C01-D1"
+func c01Routing(c *Ctx, a *sketchAnchors, rule string) {
 	f := c.P.DeclaredMethod(a.DDSketch, "AddWithCount")
 	if !c.mustFunc(rule, f, "(*DDSketch).AddWithCount") {
 		return
@@ -124,8 +123,7 @@ func c01Routing(c *Ctx, a *sketchAnchors) {
 	c.R.floor(rule, "routing table cells", cells, 18)
 }
 
-func c01Split(c *Ctx, a *sketchAnchors) {
-	const rule = "C01-D2"
+func c01Split(c *Ctx, a *sketchAnchors, rule string) {
 	f := c.P.DeclaredMethod(a.DDSketch, "GetValueAtQuantile")
 	if !c.mustFunc(rule, f, "(*DDSketch).GetValueAtQuantile") {
 		return
@@ -229,8 +227,7 @@ func linCombineKey(a, b *Linear) bool {
 	return len(d.Coef) == 0 && d.Const == 0
 }
 
-func c01KeyAtRank(c *Ctx, a *sketchAnchors) {
-	const rule = "C01-D3"
+func c01KeyAtRank(c *Ctx, a *sketchAnchors, rule string) {
 	storeI := c.P.NamedType(pkgStore, "Store")
 	seen := map[*ssa.Function]bool{}
 	nBodies := 0
